@@ -1,0 +1,14 @@
+//go:build verif
+
+// Contracts for the verification machinery in /verif (comment-only; compiled only with -tags verif).
+
+package observer
+
+// ---- C15: a transaction that cannot be processed does not stop later transactions ----
+// Every transaction of the batch is attempted (namespace lookup performed) whatever happened to the earlier ones.
+//@ func (*Observer).process
+//@   requires o != nil && o.Providers != nil && o.ProtocolClientProvider != nil
+//@   loop 1
+//@     invariant nsLookups == old(nsLookups) + _k
+//@   ensures nsLookups == old(nsLookups) + len(txns)
+//@   modifies nsLookups, txnProcessed
